@@ -35,6 +35,22 @@ CLAIMS = {
          "CAS-flag region dataflow + accumulator-phi shape rules + access census of the receive window + AST equality of variant files", "DESIGN.md 4 C18"),
  "C19": ("Decides the adapter's structural obligations: wrapped stream delivered-or-closed on every path, wait-group Add/Done pairing (each Done classified as CAS-once, membership+delete under the mutex, or drain+reset under the mutex), delegation identity of Read/Write/deadlines down to the copy paths, close/shutdown arms of Accept. Socket semantics over histories are NOT decided.",
          "path search from select sites + classification census of WaitGroup operations + delegation identity (go/ssa)", "DESIGN.md 4 C19"),
+ "C06": ("A deliberately narrow claim: byte equality of the pipe over all size sequences is a value property and is NOT decided. Decided on every path: the size>=1 guard of every sized reader entry point before the front slice is touched, Peek's purity (no cursor advance/unlink/length change in its transitive body; bufferSlice.peek restores the cursor), exactly-one length adjustment per successful return of each consuming/producing entry point, and the census of cursor/length writers.",
+         "sibling-guard dominance + effect census over a transitive body + per-return must-pass-through (go/ssa)", "DESIGN.md 4 C06"),
+ "C07": ("Decides the structural conditions of stream isolation and single-channel ordering: id identity at every send site and lookup-key identity on the receive side (under the lock), sticky fallback mark (census of its writers), transport chosen after the mark is updated, close notification on the channel the data uses, status operands. Order across the two channels under all schedules is NOT decided.",
+         "value-identity rules on SSA operands + who-may-write census + edge-placement (dominance) rules", "DESIGN.md 4 C07"),
+ "C11": ("Decides that every blocking primitive of the package (census of all selects, bare sends/receives, WaitGroup.Wait, sleeps) has an escape that a teardown role triggers or is a listed exception with a re-verified side-condition; Session.Close wakes every stream and closes shutdownCh before posting the teardown; every departure from opened closes the notify channel; readMore re-checks after every wake-up and arms/stops its deadline timer; Flush's retry loop is constant-bounded. All timing claims are NOT decided.",
+         "exhaustive census of blocking instructions with classification table + ordering/must-pass-through rules (go/ssa)", "DESIGN.md 4 C11"),
+ "C12": ("Decides min-shaped version agreement on both ends, release of every acquired resource on the peer-caused error exits of session establishment (descriptor, mappings, references, received fds), the timeout arm + buffered result channel of the handshake race, and value-flow identity of announced vs mapped paths and descriptors (wire order agreement sender/receiver). Same-memory identity and the version/back-end outcome matrix are NOT decided; local syscall-failure exits are outside the quantifier.",
+         "path-sensitive must-pass-through from acquisition success edges to error exits + shape/identity rules (go/ssa)", "DESIGN.md 4 C12"),
+ "C14": ("Decides the teardown discipline: idempotent Close (every effect behind the CAS-success edge), once-guarded channel closes, reachability of Session.Close from every connection failure signal, completeness of the posted teardown closure and of the unmap routines for every mapping type, nil-table guard of stream insertion, registry insert/delete pairing. Crash points and unmap-vs-in-flight races are NOT decided.",
+         "dominance census of effects + call-chain reachability (VTA) + value-directed path search per mapping type (go/ssa)", "DESIGN.md 4 C14"),
+ "C16": ("Decides that neither hot-restart state machine can stay in hotRestartState without a time-out: entering the state arms the checker or undoes itself on every path (one exception with re-verified infeasibility side-conditions), the checkers leave the state on every exit with an armed timer, state changes are behind epoch tests, acks only on the all-swapped edge. Completion, usability and bounded time are NOT decided.",
+         "must-pass-through from state-entry stores + per-exit rules of the checker role + epoch-guard dominance (go/ssa)", "DESIGN.md 4 C16"),
+ "C17": ("Decides the shape of the healing loop: pool closed on loss, failed reconnect => another attempt (exits only success / epoch change / cancellation), reconnect on the epoch-unchanged edge under the manager lock, rebuilt session installed, cancellation arms on every wait and cancel-before-wait in Close, no blocking operation on the failing GetStream path. Timing and repeated-loss interplay are NOT decided.",
+         "path search from the reconnect's failure edge + dominance/lock-region rules (go/ssa)", "DESIGN.md 4 C17"),
+ "C20": ("Decides the shape of the callback hand-off: publish-then-take in the event loop, spawn only as CAS winner after wait-group registration, clear -> re-check -> re-take in the goroutine (OnData again only behind a won re-take), OnData guards (open, bytes buffered, pending moved), exactly-one Done on every exit before the deferred close, deferred-close side-conditions. Eventual delivery and byte order are NOT decided.",
+         "ordering (dominance) and edge-restricted reachability rules inside the spawned closure (go/ssa)", "DESIGN.md 4 C20"),
 }
 
 NA_DEFAULT = "checker for this property not built yet (implementation in progress); see DESIGN.md"
